@@ -672,6 +672,34 @@ class _StrBox:
         return format(self.s, spec)
 
 
+# ============================================================================ stat
+
+def _stat_models():
+    import stat as _stat
+
+    def mk(name, others):
+        def m(interp, args, kwargs):
+            (mode,) = args
+            if isinstance(mode, (SOpt, SChoice)):
+                mode = interp.resolve(mode)
+            if not isinstance(mode, SInt):
+                return getattr(_stat, name)(mode)
+            f = z3.Function('stat.' + name, z3.IntSort(), z3.BoolSort())
+            for o in others:     # the file types are mutually exclusive
+                g = z3.Function('stat.' + o, z3.IntSort(), z3.BoolSort())
+                interp.st.assume(z3.Not(z3.And(f(mode.t), g(mode.t))))
+            return wrap(f(mode.t))
+
+        return m
+
+    names = ('S_ISREG', 'S_ISDIR', 'S_ISLNK', 'S_ISFIFO', 'S_ISSOCK', 'S_ISCHR', 'S_ISBLK')
+    for n in names:
+        MODELS[getattr(_stat, n)] = mk(n, [o for o in names if o != n])
+
+
+_stat_models()
+
+
 # ============================================================================ xml.etree.ElementTree
 
 def _etree_models():
